@@ -481,13 +481,17 @@ impl<const N: usize> Driver<N> {
                 let lazy = act.f & 2 == 2;
                 self.shutdown(graceful).await?;
                 if act.f & 4 == 4 {
-                    // the blob file of the victim becomes unreadable: cut inside its last record
-                    // (or inside its header when it holds no record)
+                    // the blob file of the victim becomes unreadable: cut inside its first record header
+                    // (or inside the blob header when it holds no record)
                     let p = blob_path(&self.dir, act.k);
                     let len = std::fs::metadata(&p).map(|m| m.len()).unwrap_or(0);
-                    let cut = if len > 25 { len - 5 } else { len.min(10) };
+                    // inside the header of the first record, so that the start-up scan cannot get past it
+                    let cut = if len > 25 { 25 } else { len.min(10) };
                     truncate(&p, cut);
                     self.snaps.remove(&act.k);   // the driver itself changed these bytes
+                    if let Some(r) = &self.rec {
+                        r.file_event("damage", &format!("b{}", act.k), "blob", act.k as i64);
+                    }
                     self.log.push(format!("damage: blob {} file truncated {len} -> {cut}", act.k));
                 }
                 self.damage_indexes(if act.f & 4 == 4 { "keep" } else { &act.s });
